@@ -129,7 +129,7 @@ def main():
             head = open(p, "rb").read(1024)
             cont = is_container(head)
             blob = open(p, "rb").read()
-            rep = {"engine": "entry", "label": lab, "file": os.path.relpath(p, V.REPO) if lab == "corpus" else None, "file_hex": blob.hex() if lab != "corpus" and len(blob) < 200000 else None}
+            rep = {"engine": "entry", "label": lab, "file": os.path.relpath(p, V.REPO) if lab == "corpus" else None, "file_hex": blob.hex() if lab != "corpus" and len(blob) < 600000 else None}
             bad = None
             for (te, le, name), tb, lb in zip(PAIRS, bs[4:], bs[:4]):
                 tw = tb[0].split(); lret = int(lb[0].split()[1]); tret = int(tw[1])
@@ -167,7 +167,7 @@ def main():
                                       broken="C11 title clause"), key="c11:title:" + (bytes.fromhex(ttype).decode("latin1") if ttype != "-" else "-"))
         if r and r.returncode != 0:
             k = len(blocks) // 8; j = jobs[min(k, len(jobs) - 1)]; blob = open(j[0], "rb").read()
-            ck.violation({"engine": "entry", "label": j[1], "file": os.path.relpath(j[0], V.REPO) if j[1] == "corpus" else None, "file_hex": blob.hex() if j[1] != "corpus" and len(blob) < 200000 else None,
+            ck.violation({"engine": "entry", "label": j[1], "file": os.path.relpath(j[0], V.REPO) if j[1] == "corpus" else None, "file_hex": blob.hex() if j[1] != "corpus" and len(blob) < 600000 else None,
                           "broken": "sanitizer report / crash in a test or load entry point", "stderr": r.stderr[-2000:]}, key="c11-crash")
         # ---- (c) testing while another context is loaded and playing: that context is untouched, the caller's FILE stays open
         if not rp or rp.get("engine") == "side":
